@@ -22,6 +22,9 @@ IDX = {
     (2, 3): [None, (1, 2), (-1, SL(None)), (SL(None), [0, 2]), (SL(None), 1), ([1, 0], SL(None)), (SL(None, None, -1), SL(1, None)), (Ellipsis, -1), ([0, 1], [2, 0]),
              (SL(1, None), [2, 1])],
     (2, 2, 3): [None, (1, SL(None), [0, 2]), (Ellipsis, -1), (SL(None), -1, SL(None, None, -1)), (0, 1, 2), (SL(None), SL(None), [2, 0])],
+    # 0-d variables (shape=()) and one-element vectors take their own paths through set_val after final_setup
+    (): [None],
+    (1,): [None, 0, -1],
 }
 FACT = {'m': 1.0, 'cm': 100.0, 'mm': 1000.0, 'km': 0.001}
 
@@ -121,7 +124,7 @@ def main(tier):
                     for phase in ('before_final_setup', 'after_final_setup', 'after_run'):
                         cases.append((shape, name, units, idx, phase))
     if not big:
-        cases = [c for k, c in enumerate(cases) if k % 3 == 0 or isinstance(c[3], int) or (c[3] is not None and isinstance(c[3], tuple) and (any(isinstance(t, list) for t in c[3]) or all(isinstance(t, int) for t in c[3])))]
+        cases = [c for k, c in enumerate(cases) if k % 3 == 0 or c[0] in ((), (1,)) or isinstance(c[3], int) or (c[3] is not None and isinstance(c[3], tuple) and (any(isinstance(t, list) for t in c[3]) or all(isinstance(t, int) for t in c[3])))]
     import multiprocessing as mp
     with mp.get_context('fork').Pool(16) as pool:
         res = pool.map(one, cases, chunksize=8)
